@@ -42,12 +42,13 @@ func (w *verifWriter) WriteHeader(s int) {
 type verifRuntimeBehaviour int
 
 const (
-	vbRespond      verifRuntimeBehaviour = iota // runtime posts /response with its payload, invoke succeeds
-	vbError                                     // runtime posts /error, invoke succeeds
-	vbStall                                     // runtime never answers (timeout territory)
-	vbCrash                                     // runtime exits: invoke fails with a default error response
-	vbRespondCrash                              // runtime posts /response and then the invoke fails
-	vbWrongID                                   // runtime posts for a stale id, then for the right one
+	vbRespond          verifRuntimeBehaviour = iota // runtime posts /response with its payload, invoke succeeds
+	vbError                                         // runtime posts /error, invoke succeeds
+	vbStall                                         // runtime never answers (timeout territory)
+	vbCrash                                         // runtime exits: invoke fails with a default error response
+	vbRespondCrash                                  // runtime posts /response and then the invoke fails
+	vbWrongID                                       // runtime posts for a stale id, then for the right one
+	vbRespondWhenQuiet                              // runtime posts /response only when nothing else can happen
 )
 
 type verifSandbox struct {
@@ -146,6 +147,10 @@ func (c *verifInvokeCtx) SendRequest(i *interop.Invoke, sender interop.InvokeRes
 		case vbRespondCrash:
 			post(id)
 			c.done <- &interop.InvokeFailure{ErrorType: fatalerror.RuntimeExit, DefaultErrorResponse: verifDefaultErr}
+		case vbRespondWhenQuiet:
+			verifSettle()
+			post(id)
+			c.done <- nil
 		case vbWrongID:
 			post("stale-" + id)
 			post(id)
@@ -425,3 +430,38 @@ func verifServerScript(L int) {
 func VerifC02ServerScript4() { verifServerScript(4) }
 func VerifC02ServerScript5() { verifServerScript(5) }
 func VerifC02ServerScript6() { verifServerScript(6) }
+
+// A slow internal-state getter: FastInvoke's completion goroutine of invocation A evaluates the
+// state getter right before it posts A's DONE. The getter blocks until the function timeout of A
+// has reset the environment AND the next invocation B holds the reservation. A's DONE then
+// arrives late: it must be discarded, B must end with its own response (stale DONE of an earlier
+// invocation is one of the leftovers a reset must not leave behind: C05, C07, C08).
+func VerifC05SlowStateGetter() {
+	pa, pb := verifPayload("runtime payload A"), verifPayload("runtime payload B")
+	sb := &verifSandbox{behaviours: []verifRuntimeBehaviour{vbRespond, vbRespondWhenQuiet}, payloads: [][]byte{pa, pb}}
+	s := newVerifServer(sb, 3000)
+	calls := 0
+	bReserved := false
+	s.SetInternalStateGetter(func() statejson.InternalStateDescription {
+		calls++
+		if calls == 2 { // (the first call is A's Reserve, the second A's completion report)
+			verifWaitUntil(func() bool { return bReserved })
+			verifReach("late-done")
+		}
+		return statejson.InternalStateDescription{}
+	})
+	verifSettle()
+	wa := newVerifWriter()
+	errA := s.Invoke(wa, &interop.Invoke{Payload: bytes.NewReader(nil)})
+	verifAssert(errA == ErrInvokeTimeout, "an invocation whose completion is not reported in time ends with the timeout outcome")
+	wb := newVerifWriter()
+	verifSpawnEnv(func() {
+		verifWaitUntil(func() bool { return s.invokeCtx != nil })
+		bReserved = true
+	})
+	errB := s.Invoke(wb, &interop.Invoke{Payload: bytes.NewReader(nil)})
+	verifAssert(errB == nil, "the next invocation succeeds")
+	verifAssert(sb.nInvokes == 2, "the next invocation was dispatched to its runtime")
+	verifAssert(wb.writes == 1 && string(wb.body) == string(pb), "the next invocation returns the body posted for it, not the late completion of the previous one")
+	verifReach("done")
+}
